@@ -365,6 +365,9 @@ ADD_TEXT["C06"] += (" The configuration can be reloaded in the middle of a histo
 ADD_TEXT["C14"] += (" The pending-reply list's two hooked edits (bus_connections_expect_reply / cancel_pending_reply, bus_connections_check_reply / cancel_check_pending_reply, "
                     "which puts the link back at the head) are mirrored too: a cancelled transaction restores the list up to order (pending_cancel_restores, "
                     "cancelled_transaction_restores_pending).")
+ADD_TEXT["C20"] = (" Round 5: 'the child listing reflects exactly the registered tree' is now a theorem over all histories: no reachable trie has a subtree without a registration in it "
+                   "(no_dead_branch: unregistration prunes what registration created, Proofs/ObjectTreeLive.lean), hence a name is listed below p iff some registration of the "
+                   "specification's map lies at p/name or below (children_eq_spec).")
 ADD_TEXT["C16"] = (" Round 5: one odd byte (NUL, stray continuation, 0xff, lead byte) at every position of otherwise plain texts of every length up to 48 and around 64/128/256, alone and "
                    "behind a two- or three-byte character, and every UTF-8 verdict is re-asked with the text at every offset 1..7 of its buffer (a validator that looks at a word at a "
                    "time must still see every byte).")
